@@ -1,5 +1,5 @@
 """C17 -- Schnorr half-aggregation is complete, incremental-consistent and exact."""
-import random
+import collections, random
 from c01 import b32, edge_scalar, N, P
 LEVEL = "model_checking"
 MODULE = "C17_HalfAgg.tla"
@@ -110,6 +110,18 @@ def run(chk):
     recs = chk.generate(MODULE, "C17_all.cfg", "gen", timeout=3000)
     for v in (["std"] if quick else ["std", "verify", "i64", "noasm"]):
         chk.replay(recs, v, "every schedule of incremental aggregation + generated boundary records")
+    # re-entrancy: the same aggregations once more while a second aggregation is in flight (started from inside the k-th call of a
+    # caller-supplied, correct SHA-256 compression function; harness op HalfAggAggregate with "nest": k).  The specification knows no
+    # such thing as "another call in progress": the specified result is the same.
+    # k runs over EVERY compression call of the aggregation (about 3 per signature), for a few successful aggregations of each size
+    base = []; per_n = collections.Counter()
+    for r in recs:
+        ns = len(r["in"].get("sigs", []))
+        if r["e"] == "HalfAggAggregate" and ns >= 2 and r["out"].get("ret") == 1 and per_n[ns] < (3 if quick else 12):
+            per_n[ns] += 1; base.append((r, ns))
+    nest = [dict(r, **{"in": dict(r["in"], nest=k)}) for (r, ns) in base for k in range(1, 4 * ns + 6)]
+    if nest:
+        chk.replay(nest, "std", "aggregation with a nested aggregation in flight", env={"VH_NO_EXTRA_PASSES": "1"})
     # T: aggregates made by the library, decided by TLC
     chk.validate(driver(chk, 24 if quick else 250), MODULE, "C17_trace.cfg", "driver", timeout=3000)
     return chk.finish(LEVEL,
